@@ -459,6 +459,16 @@ theorem mcc_covXY {k : Nat} {m : List (List Nat)} (h : Square k m) :
   rw [e1, e2, sum_mul_right', ← h.1, diagSum_cells]
   ring
 
+/-- a sum over class indices is a sum over the classes -/
+theorem range_map_eq_map {L : Type} (cs : List L) (F : Nat → ℝ) (G : L → ℝ)
+    (h : ∀ a c, cs[a]? = some c → F a = G c) : (List.range cs.length).map F = cs.map G := by
+  apply List.ext_getElem
+  · simp
+  · intro i h1 h2
+    have hi : i < cs.length := by simpa using h2
+    simp only [List.getElem_map, List.getElem_range]
+    exact h i cs[i] (List.getElem?_eq_getElem hi)
+
 end MccMulti
 
 end LinfaSpec.Metrics
